@@ -44,6 +44,11 @@ def c_profile(codec, outside):
     p.bit_fixed_max = 64
     p.default_kinds = ['BOOLEAN', 'INTEGER', 'ENUMERATED']
     p.max_size_bound = 12
+    # length fields of one or two octets / 8 or 9 bits in the generated C (kept <= 300: the arrays live in structs
+    # that the generated fuzz harness puts on the stack)
+    p.big_size_rate = 6
+    p.big_size_shapes = [(0, 127), (0, 128), (0, 255), (0, 256), (1, 256), (0, 257), (127, 129), (200, 300),
+                         (128, 128), (256, 256), (255, 257)]
     p.unique_member_names_ci = True
     p.empty_containers = False
     p.ref_constraints = False
